@@ -54,7 +54,7 @@ def build_cases(scripts, kind_default="random"):
         lines_c.append(f"lspec scanon {L.hexs(sx(tree[:4] + [[h[0], h[1], []] for h in handlers]))}"); expect.append(g["header"])
         lines_c.append("lspec whole 0 - -"); expect.append("same")
         spec = dict(script=sx(tree), pre=list(s.get("pre", ())), scr_num=s.get("scr_num", 0), lscr=g["lscr"], lnam=g["lnam"],
-                    names_sx=g["names_sx"], features=[L.features(h, tree[3][1:]) for h in handlers], nhandlers=len(handlers))
+                    names_sx=g["names_sx"], features=[L.features(h, tree[3][1:], [x[1] for x in handlers]) for h in handlers], nhandlers=len(handlers))
         cases.append(Case(kind=s.get("kind", kind_default), spec=spec, lines=lines_c, expect=expect))
     return cases, rejected
 
@@ -140,6 +140,8 @@ def family_scripts(rng):
                 ["ch", "word", ["i", 2], ["i", 0], ["l", "y"]], ["the", "sprite", 13, ["i", 1]], ["fld", ["i", 2]], ["op", "legCount", ["l", "y"]]]
     stmts = []
     for o in operands:
+        big = o == ["i", 70000]
+        zero = o == ["i", 0]
         stmts += [
             ["set", ["l", "y"], o], ["set", ["p", "a"], o], ["set", ["g", "gList"], o], ["set", ["mov", "itemDelimiter"], o],
             ["set", ["the", "sprite", 14, ["i", 1]], o], ["set", ["the", "cast", 2, ["i", 3]], o], ["set", ["the", "sys", 0x1b], o],
@@ -153,8 +155,8 @@ def family_scripts(rng):
             ["set", ["l", "y"], ["c", "random", o]], ["set", ["l", "y"], ["c", "helper", o, ["i", 1]]], ["set", ["l", "y"], ["m", ["l", "x"], "mget", o]],
             ["set", ["l", "y"], ["li", o, ["i", 1], o]], ["set", ["l", "y"], ["pl", ["y", "name"], o, ["y", "zz9"], o]],
             ["set", ["l", "y"], ["fld", o]], ["set", ["l", "y"], ["the", "numChunks", 2, o]], ["set", ["l", "y"], ["the", "special", 13, o]],
-            ["set", ["l", "y"], ["ch", "line", o, ["i", 0], ["l", "x"]]], ["set", ["l", "y"], ["ch", "char", ["i", 1], o, ["l", "x"]]],
-            ["set", ["l", "y"], ["ch", "item", ["i", 1], ["i", 0], o]], ["set", ["l", "y"], ["op", "hasTail", o]],
+            ["set", ["l", "y"], ["ch", "line", o if not zero else ["i", 1], ["i", 0], ["l", "x"]]], ["set", ["l", "y"], ["ch", "char", ["i", 1], o, ["l", "x"]]],
+            ["set", ["l", "y"], ["ch", "item", ["i", 1], ["i", 0], o]], ["set", ["l", "y"], ["op", "hasTail", o if not big else ["i", 7]]],
             ["set", ["l", "y"], ["the", "field", 2, o]],
             ["del", ["ch", "word", o, ["i", 0], ["fld", ["i", 2]]]], ["hil", ["ch", "word", ["i", 2], ["i", 0], ["fld", o]]],
         ]
@@ -203,7 +205,7 @@ def family_scripts(rng):
         for j in range(3):
             body = stmts[i + j * per: i + (j + 1) * per]
             if body:
-                handlers.append(["on", hnames[j], ["a", "b"]] + body)
+                handlers.append(["on", hnames[j], ["a", "b"], ["set", ["l", "x"], ["c", "birth2", ["i", 1]]]] + body)
         handlers.append(["on", "helper", ["a", "b"], ["call", "return", ["p", "a"]]])
         scripts.append(dict(tree=["script", ["factory", "-"], ["props"], ["globals", "gList"]] + handlers, pre=[], kind="families"))
     return scripts
@@ -245,7 +247,7 @@ def limit_features(h, rng, g, tries=6):
     """at most one known-defect feature per handler, so that a matcher never hides an unrelated failure in the same handler;
     none of the features on which the decompiler raises (they would hide the other handlers of the script)"""
     sg = g.globals_hdr
-    ok = lambda hh: (lambda f: len(f) <= 1 and not any(x in EXCEPTION_FEATURES for x in f))([x for x in L.features(hh, sg) if x.startswith("F")])
+    ok = lambda hh: (lambda f: len(f) <= 1 and not any(x in EXCEPTION_FEATURES for x in f))([x for x in L.features(hh, sg, g.handlers) if x.startswith("F")])
     if ok(h):
         return h
     head, body = h[:3], h[3:]
@@ -275,29 +277,57 @@ def wide_scripts(rng):
     return out
 
 
+def _probe(body, pre=(), params=("a",), name="probe", props=(), hdr_globals=()):
+    return dict(tree=["script", ["factory", "-"], ["props"] + list(props), ["globals"] + list(hdr_globals), ["on", name, list(params)] + body],
+                pre=list(pre), kind="probe")
+
+
+# one minimal handler per defect class, each in a script of its own (an exception then only affects its own lines).
+# id -> script; these are also the stored replays corpus/C02/<id>.json (written by `python harness/c02.py mkcorpus`)
+PROBES = {
+    "f20_sprite_index_expr": _probe([["call", "put", ["the", "sprite", 13, ["b", "add", ["l", "i"], ["i", 1]]]]]),
+    "f20_cast_index_unary": _probe([["call", "put", ["the", "cast", 1, ["u", "neg", ["i", 1]]]]]),
+    "f20_set_index_call": _probe([["set", ["the", "sprite", 14, ["c", "random", ["i", 3]]], ["i", 10]]]),
+    "f20_index_quote_constant": _probe([["call", "put", ["the", "cast", 11, ["s", S("\"")]]]]),
+    "f21_double_minus": _probe([["set", ["l", "x"], ["u", "neg", ["u", "neg", ["l", "y"]]]]]),
+    "f22_nested_tell": _probe([["tell", ["c", "window", ["s", S("a")]], ["tell", ["c", "window", ["s", S("b")]], ["call", "updateStage"]], ["call", "beep"]]]),
+    "f38_set_field_property": _probe([["set", ["the", "field", 6, ["i", 1]], ["s", S("right")]]]),
+    "f39_chunk_put_second_local": _probe([["set", ["l", "x"], ["i", 1]], ["set", ["l", "y"], ["s", S("a,b")]],
+                                          ["put", "into", ["s", S("me")], ["ch", "item", ["i", 2], ["i", 0], ["l", "y"]]]]),
+    "f39_chunk_delete_second_local": _probe([["set", ["l", "x"], ["i", 1]], ["set", ["l", "y"], ["s", S("a,b")]],
+                                             ["del", ["ch", "item", ["i", 1], ["i", 0], ["l", "y"]]]]),
+    "f40_starts": _probe([["call", "put", ["b", "starts", ["s", S("Man")], ["s", S("M")]]]]),
+    "f120_global_by_name_only": _probe([["put", "after", ["s", S("x")], ["ch", "item", ["i", 1], ["i", 0], ["g", "gList"]]]]),
+    "f120_global_receiver_only": _probe([["mcall", ["g", "gObj"], "mReset"]]),
+    "f121_pool_int_object": _probe([["set", ["l", "x"], ["op", "center", ["i", 70000]]]]),
+    "f122_property_of_me": dict(tree=["script", ["factory", "makeStack"], ["props"], ["globals"],
+                                      ["method", "mGet", [], ["call", "return", ["op", "center", "me"]]]], pre=[], kind="probe"),
+    "f123_param_is_name0": _probe([["call", "return", ["p", "a"]]], pre=["a", "probe"]),
+    "f124_symbol_loop": _probe([["set", ["l", "x"], ["y", "loop"]]]),
+    "f124_the_ancestor": _probe([["set", ["l", "x"], ["mov", "ancestor"]]]),
+    "f125_zero_arg_function": _probe([["set", ["l", "x"], ["c", "myFunc"]]]),
+}
+
+
 def finding_scripts():
-    """one minimal handler per suspected defect class (own script each, so that an exception only affects its own lines)"""
-    mk1 = lambda body, **kw: dict(tree=["script", ["factory", "-"], ["props"], ["globals"], ["on", "probe", ["a"]] + body], pre=[], kind="probe", **kw)
-    return [
-        mk1([["call", "put", ["the", "sprite", 13, ["b", "add", ["l", "i"], ["i", 1]]]]]),                       # F20
-        mk1([["call", "put", ["the", "cast", 1, ["u", "neg", ["i", 1]]]]]),                                     # F20 (unary)
-        mk1([["set", ["the", "sprite", 14, ["c", "random", ["i", 3]]], ["i", 10]]]),                            # F20 (set)
-        mk1([["set", ["l", "x"], ["u", "neg", ["u", "neg", ["l", "y"]]]]]),                                     # F21
-        mk1([["tell", ["c", "window", ["s", S("a")]], ["tell", ["c", "window", ["s", S("b")]], ["call", "updateStage"]], ["call", "beep"]]]),  # F22
-        mk1([["set", ["the", "field", 6, ["i", 1]], ["s", S("right")]]]),                                       # F38
-        mk1([["set", ["l", "x"], ["i", 1]], ["set", ["l", "y"], ["s", S("a,b")]], ["put", "into", ["s", S("me")], ["ch", "item", ["i", 2], ["i", 0], ["l", "y"]]]]),  # F39
-        mk1([["set", ["l", "x"], ["i", 1]], ["set", ["l", "y"], ["s", S("a,b")]], ["del", ["ch", "item", ["i", 1], ["i", 0], ["l", "y"]]]]),    # F39
-        mk1([["call", "put", ["b", "starts", ["s", S("Man")], ["s", S("M")]]]]),                                # F40
-        mk1([["set", ["l", "x"], ["y", "loop"]]]),                                                              # known symbol outside go/sound
-        mk1([["set", ["l", "x"], ["c", "myFunc"]]]),                                                            # zero-argument external call in an expression
-        mk1([["set", ["l", "x"], ["mov", "ancestor"]]]),
-    ]
+    return [dict(v, probe=k) for k, v in PROBES.items()]
+
+
+def mkcorpus():
+    from core import VERIF
+    cs, _ = build_cases(finding_scripts())
+    d = VERIF / "corpus" / "C02"
+    d.mkdir(parents=True, exist_ok=True)
+    for (k, _), c in zip(PROBES.items(), cs):
+        c.kind = "corpus-" + k
+        (d / (k + ".json")).write_text(json.dumps(dict(case=dict(kind=c.kind, spec=c.spec, lines=c.lines, expect=c.expect)), indent=1))
+    print("wrote", len(cs), "replays to", d)
 
 
 def cases(rng, tier):
     n_random = dict(quick=700, thorough=12000, search=6000)[tier]
     leafsets = LEAFSETS[:2] if tier == "quick" else LEAFSETS
-    scripts = finding_scripts()
+    scripts = []          # the defect probes are the corpus (corpus/C02/*.json), which core always runs first
     scripts += exhaustive_scripts(leafsets)
     if tier != "quick":
         scripts += family_scripts(rng)
@@ -410,4 +440,7 @@ def extra_stage(ctx, driver, stats):
 
 if __name__ == "__main__":
     import core, sys
+    if sys.argv[1:2] == ["mkcorpus"]:
+        import logging; logging.disable(logging.CRITICAL)
+        mkcorpus(); sys.exit(0)
     sys.exit(core.main("c02"))
